@@ -4,7 +4,7 @@ from __future__ import annotations
 
 import copy
 
-from .diff_schema import CATALOGUE, COLLATABLE, COLLATIONS, REFLECTABLE, UNREFLECTABLE
+from .diff_schema import flag_index_name, CATALOGUE, COLLATABLE, COLLATIONS, REFLECTABLE, UNREFLECTABLE
 
 TNAMES = ["acct", "b_item", "cust", "dept", "evt", "f1", "grp", "h2o", "inv", "jrnl", "k_9", "loc"]
 CNAMES = ["id", "a", "b", "c", "d", "e", "name", "qty", "ref", "ts", "flag", "x1", "y_2", "note", "amt"]
@@ -40,7 +40,38 @@ def gen_type(rng, odd=False):
     ty = {"fam": fam, "args": args}
     if fam in COLLATABLE and rng.random() < 0.3:
         ty["coll"] = rng.choice(COLLATIONS)
+    if rng.random() < 0.1:
+        ty["variant"] = gen_variant(rng)
     return ty
+
+
+VARIANT_TYPES = [{"fam": "Integer", "args": []}, {"fam": "BigInteger", "args": []}, {"fam": "String", "args": [40]}, {"fam": "Text", "args": []},
+                 {"fam": "Numeric", "args": [12, 2]}, {"fam": "Float", "args": []}, {"fam": "Boolean", "args": []}]
+
+
+def gen_variant(rng):
+    """base.with_variant(<type>, <dialect>): the variant counts on SQLite only when it names sqlite"""
+    return {"dialect": rng.choice(["sqlite", "sqlite", "sqlite", "postgresql", "mysql"]), "ty": copy.deepcopy(rng.choice(VARIANT_TYPES))}
+
+
+def effective_ty(ty):
+    """the type the column has on SQLite (what the model sees)"""
+    v = ty.get("variant")
+    if v and v["dialect"] == "sqlite":
+        return effective_ty(v["ty"])
+    return {k: x for k, x in ty.items() if k != "variant"}
+
+
+def to_model(obj):
+    """a request for the Lean driver: every type replaced by its SQLite-effective type, and the spelled-out default
+    schema of a table dropped (schema="main" is the same table)"""
+    if isinstance(obj, dict):
+        if "fam" in obj:
+            return effective_ty(obj)
+        return {k: to_model(v) for k, v in obj.items() if not (k == "schema" and "cols" in obj)}
+    if isinstance(obj, list):
+        return [to_model(x) for x in obj]
+    return obj
 
 
 def gen_default(rng, odd=False, funcs=False):
@@ -85,7 +116,7 @@ def gen_index(rng, table, used_names, cols=None):
     cols = cols or rng.sample(names, min(k, len(names)))
     nm = _fresh(rng, [], used_names, "ix_%s_%s_" % (table["name"], "_".join(cols)[:12]))
     ix = {"name": nm, "cols": cols, "unique": rng.random() < 0.3}
-    flag_name = "ix_%s_%s" % (table["name"], cols[0])
+    flag_name = flag_index_name(table, cols[0])
     if len(cols) == 1 and flag_name not in used_names and rng.random() < 0.5:
         # declared with the column-level flag: Column(index=True[, unique=True]) -> Index("ix_<table>_<column>")
         ix["name"] = flag_name
@@ -133,7 +164,7 @@ def all_names(schema):
     return s
 
 
-def gen_table(rng, name, earlier, used_names, odd=False, max_cols=6, funcs=False, computed=False, nullable_unset=False):
+def gen_table(rng, name, earlier, used_names, odd=False, max_cols=6, funcs=False, computed=False, nullable_unset=False, main_schema=True):
     ncols = rng.randint(1, max_cols)
     cnames = ["id"] + rng.sample(CNAMES[1:], ncols - 1) if rng.random() < 0.8 else rng.sample(CNAMES, ncols)
     cols = []
@@ -151,7 +182,18 @@ def gen_table(rng, name, earlier, used_names, odd=False, max_cols=6, funcs=False
         if nullable_unset and rng.random() < 0.3:
             cols[-1]["computed"]["nullable_unset"] = True
             cols[-1]["nullable"] = True
+    if rng.random() < 0.12:
+        # the same base type with and without a variant in one table (a variant primary key next to plain columns)
+        base = rng.choice(["BigInteger", "Integer", "String"])
+        args = [30] if base == "String" else []
+        vt = {"BigInteger": {"fam": "Integer", "args": []}, "Integer": {"fam": "BigInteger", "args": []}, "String": {"fam": "Text", "args": []}}[base]
+        cols[0]["ty"] = {"fam": base, "args": list(args), "variant": {"dialect": rng.choice(["sqlite", "sqlite", "postgresql"]), "ty": vt}}
+        for c in cols[1:3]:
+            if not c.get("computed"):
+                c["ty"] = {"fam": base, "args": list(args)}
     t = {"name": name, "cols": cols, "uqs": [], "ixs": [], "fks": []}
+    if main_schema and rng.random() < 0.1:
+        t["schema"] = "main"   # the dialect's default schema spelled out
     if rng.random() < 0.2:
         t["comment"] = rng.choice(["a table", "it's", "x"])
     for c in cols:
@@ -246,7 +288,7 @@ def candidate_mutations(rng, schema, odd=False):
     out.append(({"m": "addColumn", "t": tn, "c": nc["name"], "col": nc}, mutated(lambda s: tbl(s, tn)["cols"].append(nc))))
     # a new column declared with index=True (/ unique=True): add_column + add_index (C06 pairs only, two ops)
     nc2 = gen_col(rng, _fresh(rng, CNAMES, cn_used | {nc["name"]}, "c"), odd)
-    fix = {"name": "ix_%s_%s" % (tn, nc2["name"]), "cols": [nc2["name"]], "unique": rng.random() < 0.4, "flag": True}
+    fix = {"name": flag_index_name(t0, nc2["name"]), "cols": [nc2["name"]], "unique": rng.random() < 0.4, "flag": True}
     if fix["name"] not in used:
         def add_ixcol(s, nc2=nc2, fix=fix):
             tbl(s, tn)["cols"].append(nc2)
@@ -282,7 +324,7 @@ def candidate_mutations(rng, schema, odd=False):
     out.append(({"m": "changeType", "t": tn, "c": c1["name"], "ty": nty}, mutated(chty)))
     # near-miss type edits (C06 pairs only, not catalogue mutations of C07): same family with other arguments
     # (VARCHAR(10) -> VARCHAR(20), NUMERIC(10, 2) -> NUMERIC(12, 2)) and the NUMERIC / DECIMAL synonym pair
-    cands = [c for c in t0["cols"] if c["ty"]["args"] and c["ty"]["fam"] not in ("Enum",) and not c.get("pk")]
+    cands = [c for c in t0["cols"] if c["ty"]["args"] and c["ty"]["fam"] not in ("Enum",) and not c.get("pk") and not c["ty"].get("variant")]
     if cands:
         c3 = rng.choice(cands)
         nty3 = copy.deepcopy(c3["ty"])
@@ -523,6 +565,9 @@ def schema_flags(schema):
     tags = set()
     if not schema_wf(schema):
         tags.add("constraints-same-signature")
+    with_schema = {t["name"] for t in schema["tables"] if t.get("schema")}
+    if any(f for t in schema["tables"] for f in t["fks"] if t["name"] in with_schema or f["reftable"] in with_schema):
+        tags.add("fk-default-schema")   # see known finding C06-MAINFK: judged by the implementation-side oracle only
     for t in schema["tables"]:
         for c in t["cols"]:
             if c.get("computed") and c["computed"].get("nullable_unset"):
@@ -538,8 +583,10 @@ def schema_flags(schema):
                     tags.add("default-str-nonplain" if d["kind"] == "str" else "default-expr-nonplain")
                 if re.search(r"(?<![:\w\x5c]):(\w+)(?!:)", d["v"]):
                     tags.add("default-bindlike")
-            if c["ty"]["fam"] in UNREFLECTABLE:
+            if effective_ty(c["ty"])["fam"] in UNREFLECTABLE:
                 tags.add("type-not-reflectable")
+            if c["ty"]["fam"] == "Enum" and (c["ty"].get("variant") or {}).get("dialect") == "sqlite":
+                tags.add("enum-with-sqlite-variant")   # known finding C06-ENUMVAR: create_table loses the variant
     return tags
 
 
@@ -570,4 +617,25 @@ def battery_pairs():
         ("computed-to-plain", sch(a_col, comp()), sch(a_col, _c("g", "Integer"))),
         ("plain-to-computed", sch(a_col, _c("g", "Integer")), sch(a_col, comp())),
         ("add-stored-computed", sch(a_col), sch(a_col, comp(c={"persisted": True}))),
-    ]
+    ] + _variant_battery()
+
+
+def _variant_battery():
+    """the same base type with and without with_variant() in one rendered migration"""
+    big = {"fam": "BigInteger", "args": []}
+    big_v = {"fam": "BigInteger", "args": [], "variant": {"dialect": "sqlite", "ty": {"fam": "Integer", "args": []}}}
+    big_pg = {"fam": "BigInteger", "args": [], "variant": {"dialect": "postgresql", "ty": {"fam": "Integer", "args": []}}}
+    col = lambda n, ty, **kw: {"name": n, "ty": copy.deepcopy(ty), "nullable": kw.get("nullable", True), "pk": kw.get("pk", False), "default": None}
+    tab = lambda n, *cols, **kw: {"name": n, "cols": list(cols), "uqs": [], "ixs": [], "fks": [], **kw}
+    base = tab("bt", col("id", {"fam": "Integer", "args": []}, pk=True, nullable=False))
+    out = []
+    for label, v in (("sqlite", big_v), ("other-dialect", big_pg)):
+        out.append(("variant-new-table-" + label, {"tables": [base]},
+                    {"tables": [base, tab("vt", col("id", v, pk=True, nullable=False), col("n", big), col("m", big, nullable=False))]}))
+        out.append(("plain-then-variant-" + label, {"tables": [base]},
+                    {"tables": [base, tab("vt", col("id", {"fam": "Integer", "args": []}, pk=True, nullable=False), col("n", big), col("m", v))]}))
+        out.append(("variant-add-columns-" + label, {"tables": [tab("bt", base["cols"][0], col("k", v))]},
+                    {"tables": [tab("bt", base["cols"][0], col("k", v), col("n", big), col("m", v))]}))
+    out.append(("main-schema-table", {"tables": [tab("bt", base["cols"][0], col("a", {"fam": "String", "args": [10]}), schema="main")]},
+                {"tables": [tab("bt", base["cols"][0], col("a", {"fam": "String", "args": [20]}, nullable=False), col("n", big), schema="main")]}))
+    return out
